@@ -6,6 +6,7 @@ from pathlib import Path
 from dliswriter.utils.internal.internal_enums import RepresentationCode
 from dliswriter.utils.internal.types import file_name_type, number_type, bytes_type
 from dliswriter.logical_record.misc import StorageUnitLabel
+from dliswriter.utils.internal import verif_taps
 
 logger = logging.getLogger(__name__)
 
@@ -55,6 +56,9 @@ class ByteWriter:
 
         self._append = True  # in the future calls, append bytes to the file
         self._total_size += (size or len(bts))
+
+        if verif_taps.ENABLED:
+            verif_taps.flush_tap(self._filename, self._total_size)
 
 
 class BufferedOutput:
